@@ -1,3 +1,4 @@
 pub mod db;
 pub mod exec;
 pub mod query;
+pub mod privacy;
